@@ -9,9 +9,9 @@ RULE = ("multi-line template sets (multi-byte characters, CRLF, tabs) with EXACT
         "nesting position (inside if / each / with bodies, else branches, else-chain links, blocks of user helpers, inline partial bodies, "
         "partial-block and fallback bodies, registered partials called from elsewhere) in a random template of the set; failure kinds: missing variable (strict), unknown "
         "helper, unknown partial, unknown decorator, helper argument error (lookup without arguments, each without argument, "
-        "invalid logging level), and tags of the block kinds failing themselves (unknown block decorator, inline without a name, a failing subexpression "
+        "invalid logging level), and tags of the block kinds failing themselves – with plain bodies and with other blocks inside their bodies and branches – (unknown block decorator, inline without a name, a failing subexpression "
         "in the arguments of a partial / partial block / block helper / decorator); the generator records the template name and the 1-based line/column of the tag's '{{' "
-        "(for a failing else-chain link: the chain's opening tag) – that record is the oracle; plus compile errors (name and "
+        "(for a failing else-chain link: the chain's opening tag) – that record is the oracle; the families of the Lean theorems C18.missing_variable_points_at_the_tag and C18.unknown_helper_points_at_the_tag (any text, the failing tag, any text; name, line, column and the bytes written before the failure compared exactly); plus compile errors (name and "
         "position inside the source); the template holding the failing tag registered from a string, from a file, and from a file under dev mode "
         "(recompiled at render time), and tracked files edited into something that does not compile (the reload error carries the registered name); non-trivial = every case; distinct by (kind, position)")
 DEFINITE_FLOOR = 0.95
@@ -26,7 +26,18 @@ FAILS = [("{{nope}}", "MissingVariable", True), ("{{nohelper 1}}", "HelperNotFou
          ("{{#> okp (nohelper 1)}}b\n{{/okp}}", "HelperNotFound", False), ("{{> okp (nohelper 1)}}", "HelperNotFound", False),
          ("{{> (nohelper 1)}}", "HelperNotFound", False), ("{{#if (nohelper 1)}}x\n{{else}}y{{/if}}", "HelperNotFound", False),
          ("{{#each (nohelper 1)}}x\n{{/each}}", "HelperNotFound", False), ("{{*sethelper (nohelper 1)}}", "HelperNotFound", False),
-         ("{{#> nosuch x=(nohelper 1)}}fb\n{{/nosuch}}", "HelperNotFound", False), ("{{#*inline (nohelper 1)}}x\n{{/inline}}", "HelperNotFound", False)]
+         ("{{#> nosuch x=(nohelper 1)}}fb\n{{/nosuch}}", "HelperNotFound", False), ("{{#*inline (nohelper 1)}}x\n{{/inline}}", "HelperNotFound", False),
+         # … the same with OTHER BLOCKS inside the failing block's body / branches (one, several, nested): the position is still
+         # the failing tag's own opening tag, not that of a block opened inside it
+         ("{{#nohelper 1}}a\n {{#if @root.t}}b{{/if}}c{{/nohelper}}", "HelperNotFound", False),
+         ("{{#each}}\n  {{#if @root.t}}y{{/if}}\n{{/each}}", "ParamNotFoundForIndex", False),
+         ("{{#each (nohelper 1)}}x\n{{#with @root.o}}\n{{#if @root.t}}z{{/if}}{{/with}}{{/each}}", "HelperNotFound", False),
+         ("{{#with nope}}\n{{#each @root.one}}x{{/each}}\n {{#if @root.t}}y{{/if}}{{/with}}", "MissingVariable", True),
+         ("{{#if (nohelper 1)}}x\n{{else}}\n  {{#unless @root.f}}y{{/unless}}{{/if}}", "HelperNotFound", False),
+         ("{{#> okp (nohelper 1)}}b\n {{#if @root.t}}c{{/if}}{{/okp}}", "HelperNotFound", False),
+         ("{{#*nodeco}}x\n{{#if @root.t}}y{{/if}}\n{{/nodeco}}", "DecoratorNotFound", False),
+         ("{{#> nosuch x=(nohelper 1)}}fb\n{{#> okp}}in{{/okp}}{{/nosuch}}", "HelperNotFound", False),
+         ("{{#*inline (nohelper 1)}}x\n{{#each @root.one}}i{{/each}}{{/inline}}", "HelperNotFound", False)]
 FILL = ["text ", "é→ ", "{{@root.s}}", "\n", "\r\n", "\t", "  ", "{{! c }}", "x", "{{{@root.s}}} ", "{{@root.o.s}}", "😀",
         " {{~@root.s}}", "{{@root.s~}} ", "  {{~@root.o.s~}}  ", "\n  {{~#if @root.t}}y{{/if}}", "{{#if @root.t~}} y {{~/if}}", " {{~> okp}}",
         "{{{{raw}}}} r {{{{/raw}}}}", "{{#*inline \"il\"}}i{{/inline}}", "{{*sethelper \"lh\" \"L\"}}", "\\{{esc}}", "{{#> okp}}b{{/okp}}"]
@@ -104,7 +115,9 @@ def gen_case(rng, i):
     # the failing tag, possibly as the condition of an else-chain link (position = chain's opening tag)
     chain_link = rng.chance(0.12) and tag in ("{{nohelper 1}}",)
     if chain_link:
-        planted = MARK + "{{#if @root.f}}no{{else nohelper 1}}x{{/if}}"
+        planted = MARK + rng.pick(["{{#if @root.f}}no{{else nohelper 1}}x{{/if}}",
+                                   "{{#if @root.f}}n\n {{#with @root.o}}w{{/with}}{{else nohelper 1}}\n{{#if @root.t}}x{{/if}}{{/if}}",
+                                   "{{#if @root.f}}no{{else if @root.f}}\n{{#each @root.one}}e{{/each}}{{else nohelper 1}}x{{/if}}"])
     else:
         planted = MARK + tag
     body = filler(rng, rng.range(0, 4)) + wrap(rng, planted, rng.range(0, 3)) + filler(rng, rng.range(0, 3))
@@ -150,12 +163,30 @@ def generate(rng, n, tier="quick"):
     for k in range(max(20, n // 10)):
         r = rng.fork("thm%d" % k)
         L, R = thm_left(r), thm_right(r)
-        src = L + "{{v}}" + R
+        # … and of C18.missing_name_points_at_the_tag: the same for EVERY identifier in place of v
+        from .C02 import ident_name
+        var = "v" if k % 2 == 0 else ident_name(r)
+        if var == "w":
+            var = "v"
+        # … and of C18.missing_html_name_points_at_the_tag: the unescaped spellings {{{name}}} and {{&name}}
+        tagsrc = "{{" + var + "}}" if k % 4 < 2 else r.pick(["{{{" + var + "}}}", "{{&" + var + "}}"])
+        src = L + tagsrc + R
         line, col = line_col(src, len(L))
         nm = r.pick(["main", "dir/t.hbs", "é"])
-        c = session({"strict": True, "escape": "none"}, [(nm, src)], {"api": "render_to_write", "name": nm}, {"w": 1})
+        c = session({"strict": True, "escape": r.pick(["none", "html"])}, [(nm, src)], {"api": "render_to_write", "name": nm}, {"w": 1})
         c["id"] = "C18-thm%04d" % k
-        out.append((c, {"name": nm, "line": line, "col": col, "reason": "MissingVariable", "tag": "{{v}}", "where": "thm", "chain": False, "written": L}))
+        out.append((c, {"name": nm, "line": line, "col": col, "reason": "MissingVariable", "tag": tagsrc, "where": "thm", "chain": False, "written": L,
+                        "payload": var}))
+    # the family of the Lean theorem C18.unknown_helper_points_at_the_tag: L ++ {{h 1}} ++ R, no helper h, either mode
+    for k in range(max(20, n // 10)):
+        r = rng.fork("thmh%d" % k)
+        L, R = thm_left(r), thm_right(r)
+        src = L + "{{h 1}}" + R
+        line, col = line_col(src, len(L))
+        nm = r.pick(["main", "dir/t.hbs", "\u00e9"])
+        c = session({"strict": r.chance(0.5), "escape": "none"}, [(nm, src)], {"api": "render_to_write", "name": nm}, {"w": 1})
+        c["id"] = "C18-thmh%04d" % k
+        out.append((c, {"name": nm, "line": line, "col": col, "reason": "HelperNotFound", "tag": "{{h 1}}", "where": "thm", "chain": False, "written": L}))
     # compile errors: name and a position inside the source
     for k, (src, reason) in enumerate([("a\n{{#if x}}", "InvalidSyntax"), ("{{#if x}}\n{{/each}}", "MismatchingClosedHelper"),
                                        ("é\n {{foo 1.}}", "InvalidParam"), ("{{#*inline \"a\"}}{{/x}}", "MismatchingClosedDecorator")]):
@@ -213,6 +244,8 @@ def oracle(case, meta, impl):
         v.append("error names template %r, the failing tag is in %r" % (l.get("name"), meta["name"]))
     if "written" in meta and l.get("written") != meta["written"]:
         v.append("written before the error %r, expected %r" % (l.get("written"), meta["written"]))
+    if "payload" in meta and l.get("args") != [meta["payload"]]:
+        v.append("the error carries %r, the missing variable is %r" % (l.get("args"), meta["payload"]))
     if (l.get("line"), l.get("col")) != (meta["line"], meta["col"]):
         v.append("error points at %s:%s, the tag %s begins at %s:%s" % (l.get("line"), l.get("col"), meta["tag"], meta["line"], meta["col"]))
     return v
